@@ -143,7 +143,7 @@ class CircuitTorchWrapper(torch.nn.Module):
             if ind0 in ind_gate_to_ind_torch:
                 ind_torch = ind_gate_to_ind_torch[ind0][1]
                 if kind=='custom':
-                    info = dict(kind=kind, name=name, index=index, gate=gate)
+                    info = dict(kind=kind, name=name, index=index, gate=gate, ind_torch=ind_torch)
                 else:
                     assert kind in {'unitary','control'}
                     info = dict(kind=kind, name=name, index=index, ind_torch=ind_torch)
